@@ -122,6 +122,7 @@ class World:
         self.bm = None
         self.dead = False
         self.descriptors = {}                      # sd_hash -> StreamDescriptor (python data kept by the harness)
+        self.stop_errors = []
         self.managed = []                          # sd hashes of the managed streams published in this world
         self.daemon_flags = []                     # per daemon start: sd_hash -> "its file is not JSON"
 
@@ -146,11 +147,31 @@ class World:
             except Exception:
                 pass
 
+    def forget_bandwidth_task(self):
+        """the process is gone (or the manager abandoned): its endless bandwidth loop goes with it"""
+        t = getattr(getattr(self.bm, 'connection_manager', None), '_task', None)
+        if t is not None and not t.done():
+            t.cancel()
+
+    def stop_blob_manager(self, connected=False):
+        """BlobManager.stop() as a component shutdown calls it; an exception it raises is what the daemon would log
+        and carry on from (the monitor judges the state the next start leaves)"""
+        if connected:
+            # a blob-exchange client connection that is still registered when the manager stops
+            # (BlobExchangeClientProtocol.connection_made -> connection_manager.connection_made)
+            self.bm.connection_manager.connection_made('10.0.0.1:3333')
+            self.bm.connection_manager.connection_received('10.0.0.2:4444')
+        try:
+            self.bm.stop()
+        except Exception as e:
+            self.stop_errors.append('%s: %s' % (type(e).__name__, e))
+
     async def drain(self):
         me = asyncio.current_task()
         quiet = 0
         for _ in range(10000):
-            pend = [t for t in asyncio.all_tasks() if t is not me and not t.done()]
+            bw = getattr(getattr(self.bm, 'connection_manager', None), '_task', None)   # endless bandwidth loop
+            pend = [t for t in asyncio.all_tasks() if t is not me and t is not bw and not t.done()]
             if pend:
                 quiet = 0
                 await asyncio.wait(pend, timeout=20)
@@ -164,6 +185,7 @@ class World:
     async def kill(self):
         """process death: nothing is stopped gracefully; the sqlite handle is released"""
         await self.drain()
+        self.forget_bandwidth_task()
         if self.storage is not None:
             await self.storage.close()
         self.storage = None
@@ -171,8 +193,9 @@ class World:
         self.sm = None
         self.dead = True
 
-    async def restart(self, mode, save=None, inflight=False, daemon=False):
+    async def restart(self, mode, save=None, inflight=False, daemon=False, connected=False):
         """daemon: a whole daemon start -- BlobManager.setup() and then the stream manager's start-up"""
+        self._connected_at_stop = connected
         await self._restart(mode, save, inflight)
         if daemon:
             await self.stream_manager_start()
@@ -185,21 +208,22 @@ class World:
             await self.stream_manager_stop()
         if self.bm is not None and inflight:
             # in-process restart with database writes still queued: no yield to the loop before setup()
-            self.bm.stop()
+            self.stop_blob_manager()
             await self.bm.setup()
             await self.drain()
             return
         if self.bm is not None and mode == 'stop_same':
             # Component stop/start on the same objects: stop() then setup()
             await self.drain()
-            self.bm.stop()
+            self.stop_blob_manager(connected=getattr(self, '_connected_at_stop', False))
             await self.bm.setup()
             await self.drain()
             return
         if self.bm is not None:
             await self.drain()
             if mode == 'stop_new':
-                self.bm.stop()
+                self.stop_blob_manager(connected=getattr(self, '_connected_at_stop', False))
+            self.forget_bandwidth_task()
             await self.storage.close()
         await self.boot()
         await self.bm.setup()
@@ -211,7 +235,8 @@ class World:
                 await self.drain()
                 await self.stream_manager_stop()
                 if self.bm is not None:
-                    self.bm.stop()
+                    self.stop_blob_manager()
+                    self.forget_bandwidth_task()
                 await self.storage.close()
         finally:
             shutil.rmtree(self.root, ignore_errors=True)
@@ -442,7 +467,13 @@ class World:
     async def stream_delete(self, hs, sd):
         descriptor = self.descriptors[sd]
         assert [b.blob_hash for b in descriptor.blobs[:-1]] == list(hs)
-        # StreamManager.delete
+        if sd in self.managed:
+            self.managed.remove(sd)
+        if self.sm is not None and sd in self.sm.streams:
+            await self.sm.delete(self.sm.streams[sd])        # the real API path (file_delete)
+            await self.drain()
+            return 'done'
+        # StreamManager.delete, for a stream the stream manager has not loaded
         await self.bm.delete_blobs([sd] + list(hs), delete_from_db=False)
         await self.storage.delete_stream(descriptor)
         await self.drain()
@@ -576,7 +607,9 @@ def model_ops(case, daemon_flags=None):
         m = {'op': k}
         if k == 'restart' and o.get('daemon'):
             # the streams that are managed files at this point of the history
-            managed = [p['stream'] for p in case['ops'][:len(out)] if p['op'] == 'publish' and p.get('managed')]
+            gone = {p['stream'] for p in case['ops'][:len(out)] if p['op'] == 'stream_delete'}
+            managed = [p['stream'] for p in case['ops'][:len(out)]
+                       if p['op'] == 'publish' and p.get('managed') and p['stream'] not in gone]
             sts = []
             now = flags.pop(0) if flags else {}
             for i in managed:
@@ -681,7 +714,7 @@ async def run_ops(w, case, ops, on_restart, trace):
                     before['not_json'] = [hx(sd) for sd, bad in w.daemon_flags[-1].items() if bad]
             try:
                 await w.restart(o.get('mode', 'new'), o.get('save'), inflight=bool(o.get('inflight')),
-                                daemon=bool(o.get('daemon')))
+                                daemon=bool(o.get('daemon')), connected=bool(o.get('connected')))
             except Exception as e:                       # a start that raises is the worst bookkeeping failure
                 on_restart(before, None, failed='%s: %s' % (type(e).__name__, e))
                 raise StartFailed()
@@ -752,6 +785,8 @@ async def run_impl(case, loop, on_restart):
     """-> (list of {r, s} per op, what was observed about sd blob files at each daemon start).
     on_restart(before, after) feeds the monitor."""
     w = World(loop)
+    if case.get('bandwidth'):
+        w.conf.track_bandwidth = True      # the default: BlobManager.setup starts, stop() stops the connection manager
     trace = []
     try:
         await w.boot()            # the daemon is running with an empty directory and table (the model's init)
@@ -939,7 +974,7 @@ def make_stream(rng, idx, nblobs=None, real=False):
             'seed': rng.randbytes(6).hex(), 'size': size, 'chunk': chunk}
 
 
-def gen_case(rng, nops, with_dirs=False, inject=True, toggle_save=False):
+def gen_case(rng, nops, with_dirs=False, inject=True, toggle_save=False, bandwidth=False):
     nb = rng.randrange(2, 7)
     blobs = {}
     for _ in range(nb):
@@ -1091,6 +1126,14 @@ def gen_case(rng, nops, with_dirs=False, inject=True, toggle_save=False):
                 ops.append({'op': 'ext_dir', 'n': any_name()})
     ops.append({'op': 'restart', 'mode': 'new'})
     ops.append({'op': 'restart', 'mode': rng.choice(['new', 'stop_new', 'stop_same'])})
+    if bandwidth:
+        # bandwidth tracking on (the default configuration) and, at some component restarts, a blob-exchange
+        # connection still registered with the connection manager when BlobManager.stop() runs
+        case['bandwidth'] = True
+        for o in ops:
+            if o['op'] == 'restart' and o.get('mode') in ('stop_same', 'stop_new') and not o.get('inflight') \
+                    and rng.random() < 0.7:
+                o['connected'] = True
     return case
 
 
@@ -1178,8 +1221,10 @@ def gen_daemon_case(rng):
                 sdlen = expected_of(case['streams'][i])[1][1]
                 ops.append({'op': 'ext_file', 'n': {'stream': i, 'blob': 'sd'}, 'size': sdlen,
                             'damage': rng.choice(['json', 'hash'])})
-            elif c < 0.72:
+            elif c < 0.66:
                 ops.append({'op': 'delete', 'hs': [n], 'from_db': rng.random() < 0.5})
+            elif c < 0.72:
+                ops.append({'op': 'stream_delete', 'stream': rng.randrange(nstreams)})   # file_delete of a whole stream
             elif c < 0.8:
                 ops.append({'op': 'ext_mark', 'h': n})
             elif c < 0.9:
@@ -1268,6 +1313,8 @@ def with_loop(fn):
 
 
 STRICT_API = ('complete', 'publish', 'delete', 'stream_delete', 'restart')
+# (BlobManager.delete_blobs(delete_from_db=False) alone is only half of StreamManager.delete: the rows go in the second
+#  half; the API's own blob_delete always removes the row)
 
 
 def monitor_runtime(case, impl):
@@ -1283,8 +1330,20 @@ def monitor_runtime(case, impl):
         if o['op'] == 'restart':
             clean = all(k == 'f' for _, k, _ in s['disk'])
             continue
+        if clean and ((o['op'] == 'delete' and not o['from_db']) or st['r'] == 'invalid'):
+            clean = False
+            continue
         if clean:
             files = {n for n, k, _ in s['disk'] if k == 'f'}
+            for h in sorted(set(s['announce_all']) | set(s['announce_head'])):
+                if h not in files:
+                    return i, (f'{unhx(h)[:12]}.. has no file but is recorded as finished and handed to the DHT announcer, '
+                               f'between restarts, after the API operation {o["op"]} (only API operations since the last '
+                               f'start)')
+            for h, stt in s['db']:
+                if stt == 'finished' and h not in files:
+                    return i, (f'{unhx(h)[:12]}.. is recorded as finished but has no file, between restarts, after the '
+                               f'API operation {o["op"]} (only API operations since the last start)')
             for h in s['completed']:
                 if h not in files:
                     return i, (f'{unhx(h)[:12]}.. is reported as completed but has no file, between restarts, after '
@@ -1460,12 +1519,14 @@ def main(run):
                 'dead process) / publish (0-4 content blobs through the real create_stream with the chunk size patched small, one '
                 'real 2 MiB-chunk stream) / publish_crash(k files written, j recorded) / delete (1-3 names, with or without rows, '
                 'sometimes an invalid name) / stream_delete / ext_file (junk, true content, size 0) / ext_remove / ext_db (forced '
-                'row; sizes 0..100 and MAX_BLOB_SIZE-1, MAX_BLOB_SIZE, +1, 3x), ext_mark (should_announce=1 on a row) / '
+                'row; every fifth history runs with bandwidth tracking on and a blob-exchange connection still registered when a '
+                'component restart stops the manager; sizes 0..100 and MAX_BLOB_SIZE-1, MAX_BLOB_SIZE, +1, 3x), ext_mark (should_announce=1 on a row) / '
                 'in-process restart with the database write of a just completed blob still queued / restart (fresh objects, stop()+fresh, stop()+setup() on the same '
                 'object; in a quarter of the histories some '
                 'restarts switch config.save_blobs off or on), always ending with two restarts; '
                 'ext_link (symlink to a regular file on another volume: a relocated blob; dangling symlink and sub-directory in every eighth '
                 'history); daemon-start histories: 1-3 managed streams published through the real StreamManager.create with a claim, '
+                'whole streams deleted through the real StreamManager.delete while other streams are known, '
                 'their sd / content blob files removed, restored with true content, the sd blob damaged in place (non-JSON bytes; valid '
                 'JSON with a wrong stream hash) or deleted through the API, restarts that run '
                 'BlobManager.setup AND the real StreamManager.initialize_from_database (recover_streams, _load_stream); '
@@ -1524,8 +1585,8 @@ def main(run):
     n_hist = vlib.scaled(run.tier, 140, 2500)
     for i in range(n_hist):
         nops = rng.choice([6, 12, 20, 30, 40])
-        check_case(run, model, gen_case(rng, nops, with_dirs=(i % 8 == 7), inject=(i % 3 != 0), toggle_save=(i % 4 == 1)),
-                   'generated')
+        check_case(run, model, gen_case(rng, nops, with_dirs=(i % 8 == 7), inject=(i % 3 != 0), toggle_save=(i % 4 == 1),
+                            bandwidth=(i % 5 == 2)), 'generated')
     mark('histories')
     for s in FIXED_NAMES:
         check_name(run, model, s, 'fixed')
